@@ -2,8 +2,8 @@ import OtelVerif.Lemmas.ReaderMain
 /-! # C02 / C03 — the periodic exporting metric reader
 
 Theorems about `Model/ReaderAbs.lean`, for every schedule of the worker, its per-cycle collect thread, any number of
-recorders and `ForceFlush` callers, and `Shutdown` callers one after the other; the export timeout may fire at any
-moment.  `recorded` counts measurements, `covered` is the largest `Produce` snapshot whose `Export` has returned,
+recorders, `ForceFlush` callers and `Shutdown` callers (serialized by `shutdown_m_` where they touch the worker thread, D82);
+the export timeout may fire at any moment.  `recorded` counts measurements, `covered` is the largest `Produce` snapshot whose `Export` has returned,
 `bh` = `recorded` when a `ForceFlush` call began. -/
 namespace Otel.C02Reader
 open Otel Otel.Reader
